@@ -190,6 +190,14 @@ Definition umeasure (s : ustate) : nat :=
   + (match u_serve s with SNew => 2 | SCheck => 1 | SRead => 5 | SExit => 0 end)
   + 2 * u_handlers s + u_hooks s.
 
+(* run a schedule of COMPONENT steps (no environment), each of which must be enabled;
+   None: some step was not enabled *)
+Fixpoint urun_sys (tracked : bool) (sched : list uact) (s : ustate) : option ustate :=
+  match sched with
+  | [] => Some s
+  | a :: r => if usys a && uenabled a s then urun_sys tracked r (ustep tracked a s) else None
+  end.
+
 (* ------------------------------------------------------------------ *)
 (* (ii-b) HTTP frontend                                                *)
 (* ------------------------------------------------------------------ *)
@@ -312,6 +320,12 @@ Definition hmeasure (s : hstate) : nat :=
   + (match h_serve s with HNew => 3 | HAssigned => 2 | HServing => 1 | HExit => 0 end)
   + 2 * h_handlers s + h_hooks s.
 
+Fixpoint hrun_sys (fixed : bool) (sched : list hact) (s : hstate) : option hstate :=
+  match sched with
+  | [] => Some s
+  | a :: r => if hsys a && henabled a s then hrun_sys fixed r (hstep fixed a s) else None
+  end.
+
 (* ------------------------------------------------------------------ *)
 (* (iii-a) Run.Stop(false): frontends, then the logic, then the store  *)
 (* ------------------------------------------------------------------ *)
@@ -414,6 +428,9 @@ Section Run.
     | EReload :: rest =>
       match reload [] [] r with Some r' => run_events rest r' | None => None end
     end.
+
+  (* the frontends are up and the store is open *)
+  Definition serving (r : runst) : Prop := r_up r = true /\ exists p, r_store r = Some p /\ p_closed p = false.
 
   Definition requests_of (es : list ev) : list ev :=
     filter (fun e => match e with EReq _ => true | EReload => false end) es.
